@@ -1,12 +1,22 @@
 import Driver.Proto
 import CifModel.Model.Normalize
+import CifModel.Model.NormalizeBuf
+import CifModel.Model.Serialize
 import CifModel.Gen.ErrCodes
 /- family `norm` (C09).  The request the model sees is the executor's request followed by ` | g:<x>:<NFD x>:<fold NFD x>:<NFC fold NFD x>:<NFC x> …`
    (tools/gen/norm.py `model_request`): the graph of ICU's functions on the strings involved, which instantiates the model's
    `UnicodeOps` parameter.  Tokens after `|` that do not start with `g:` are ignored.
      norm cp <x> | g…                         ↦ nm rc=0 out=<cifNormalize U x>
      norm match <block|frame|item> <a> <b> | g… ↦ nm ca= cb= gb=
-     norm map <tbl|pkt> <op>… | g…            ↦ nm <result>…                                                   -/
+     norm map <tbl|pkt> <op>… | g…            ↦ nm <result>…      (ops S / P: the table goes through the model of
+                                                 cif_value_serialize / cif_value_deserialize (Model/Serialize.lean: normalised key AND
+                                                 original spelling of every entry are written and read); a packet read back through a
+                                                 packet iterator carries its NORMALISED names as spellings (cif_loop_get_names_internal
+                                                 with normalize = TRUE))
+   buffer level (Model/NormalizeBuf.lean; the ICU calls are `icuOf` of the functions given by `n:<x>:<NFD x>`, `f:<y>:<fold y>`,
+   `c:<z>:<NFC z>` tokens; first-buffer guess `cGuess`, fuel 8):
+     norm buf <fn> <z|n> <srclen> <mem> | n… f… c… ↦ nb rc= len= cap= out= term= tr=<trace>
+     norm icu <nfd|nfc|fold> <cap> <x> | <t>:<x>:<f x> ↦ ic len= st= w= nul= guard=                                  -/
 namespace Driver.Fam.Norm
 open Driver CifModel CifModel.Model CifModel.Gen.ErrCodes
 
@@ -30,6 +40,9 @@ def addToken (g : Graph) (tok : String) : Option Graph :=
       let x ← unhex x; let d ← unhex d; let f ← unhex f; let c ← unhex c; let nx ← unhex nx
       pure { nfd := (x, d) :: g.nfd, fold := (d, f) :: g.fold, nfc := (f, c) :: (x, nx) :: g.nfc }
   | "g" :: _ => none
+  | ["n", x, y] => do let x ← unhex x; let y ← unhex y; pure { g with nfd := (x, y) :: g.nfd }
+  | ["f", x, y] => do let x ← unhex x; let y ← unhex y; pure { g with fold := (x, y) :: g.fold }
+  | ["c", x, y] => do let x ← unhex x; let y ← unhex y; pure { g with nfc := (x, y) :: g.nfc }
   | _ => some g
 
 def parseGraph (toks : List String) : Option Graph := toks.foldlM addToken {}
@@ -56,6 +69,17 @@ def runMatch (U : UnicodeOps) (kind : String) (a b : Str) : Option String := do
 /-- insertion sort of hex strings (the executor sorts keys as C strings of lower-case hex) -/
 def sortStrings (l : List String) : List String := (l.toArray.qsort (· < ·)).toList
 
+/-- stands for the unknown value (cif_packet_create) among the character tags of the map histories -/
+def unknownTag : Str := [0xfffe, 0xfffe]
+
+/-- a table of character values through `cif_value_serialize` and `cif_value_deserialize` (what storing it in a managed CIF and
+    reading it back does) -/
+def throughBlob (es : Entries Str) : Option (Entries Str) :=
+  let v : V := .tbl (es.map fun e => (e.1, e.2.1, V.chr true e.2.2))
+  match CifModel.Model.Serialize.deserialize (fun _ => none) (CifModel.Model.Serialize.ser v) with
+  | some (.tbl es', []) => es'.mapM fun e => match e.2.2 with | .chr _ t => some (e.1, e.2.1, t) | _ => none
+  | _ => none
+
 def runMap (U : UnicodeOps) (isTbl : Bool) (ops : List String) : Option String := do
   let norm : Option Str → Except Code Str :=
     if isTbl then (fun n => normalizeTableIndex U n CIF_INVALID_INDEX) else (fun n => normalizeItemName U n CIF_INVALID_ITEMNAME)
@@ -73,16 +97,91 @@ def runMap (U : UnicodeOps) (isTbl : Bool) (ops : List String) : Option String :
     | ["g", k] => do
         let k ← unhex k
         match es.get normGet k CIF_NOSUCH_ITEM with
-        | .ok t => pure (es, s!"g=0/{hex t}" :: out)
+        | .ok t => pure (es, (if t == unknownTag then "g=0/~" else s!"g=0/{hex t}") :: out)
         | .error c => pure (es, s!"g={c}/~" :: out)
     | ["r", k] => do
         let k ← unhex k
         match es.remove normGet k CIF_NOSUCH_ITEM with
         | .ok es' => pure (es', "r=0" :: out)
         | .error c => pure (es, s!"r={c}" :: out)
+    | ["C"] => if isTbl then some (es, "C=0" :: out) else none
+    | ["N", names] =>
+        if isTbl then none else do
+          let ns ← (names.splitOn ",").mapM unhex
+          -- cif_packet_create: every name normalised first (any invalid one: CIF_INVALID_ITEMNAME), then one entry per name holding
+          -- the unknown value; two names of one item: CIF_DUP_ITEMNAME
+          match ns.mapM (fun n => match norm (some n) with | .ok k => some (k, n) | .error _ => none) with
+          | none => pure (es, s!"N={CIF_INVALID_ITEMNAME}" :: out)
+          | some ks =>
+            if (ks.map (·.1)).eraseDups.length != ks.length then pure (es, s!"N={CIF_DUP_ITEMNAME}" :: out)
+            else pure (ks.map (fun p => (p.1, p.2, unknownTag)), "N=0" :: out)
+    | ["S"] => if isTbl then (match throughBlob es with | some es' => some (es', "S=0/0" :: out) | none => some (es, "S=MODEL:deserialize" :: out)) else none
+    | ["P"] =>
+        if isTbl then (match throughBlob es with | some es' => some (es', "P=0/0" :: out) | none => some (es, "P=MODEL:deserialize" :: out))
+        else if es.isEmpty then some (es, "P=skip" :: out)
+        else some (es.map (fun e => (e.1, e.1, e.2.2)), "P=0/0" :: out)
     | _ => none
   let (_, out) ← ops.foldlM step (([] : Entries Str), ([] : List String))
   pure (" ".intercalate ("nm" :: out.reverse))
+
+
+/-! ### buffer level -/
+open CifModel.Model.NormBuf in
+def showStatus : IcuStatus → String
+  | .zero => "z" | .notTerminated => "w" | .overflow => "o" | .failure => "e"
+
+open CifModel.Model.NormBuf in
+def showEv : Ev → String
+  | .malloc n => s!"m{n}" | .realloc n => s!"r{n}" | .free => "f" | .icu cap len st => s!"i{cap}:{len}:{showStatus st}"
+
+open CifModel.Model.NormBuf in
+def showTrace (t : List Ev) : String := if t.isEmpty then "-" else ",".intercalate (t.map showEv)
+
+open CifModel.Model.NormBuf in
+def showErr : Err → String
+  | .oobWrite => "MODEL:oobWrite" | .oobRead => "MODEL:oobRead" | .fuel => "MODEL:fuel" | .code c => s!"rc={c} len=- cap=- out=~ term=-"
+
+open CifModel.Model.NormBuf in
+def runBuf (U : UnicodeOps) (fn mode lenArg : String) (units : Str) : Option String := do
+  let srclen ← lenArg.toInt?
+  let z ← if mode == "z" then some true else if mode == "n" then some false else none
+  let mem := if z then units ++ [0] else units
+  -- the preconditions the executor enforces as well
+  if srclen ≥ 0 then (if srclen.toNat > mem.length then none else some ()) else (if mem.contains 0 then some () else none)
+  let I := IcuOps.of U
+  let fuel := 8
+  let stage (r : Res (Buf × Nat)) : String :=
+    match r with
+    | (t, .ok (b, n)) =>
+      let term := decide (n < b.data.length) && (b.data.getD n 1 == 0)
+      s!"nb rc=0 len={n} cap={b.cap} out={hex (b.data.take n)} term={boolStr term} tr={showTrace t}"
+    | (t, .error e) => s!"nb {showErr e} tr={showTrace t}"
+  let whole (want : Bool) (r : Res Buf) : String :=
+    match r with
+    | (t, .ok b) => if want then s!"nb rc=0 len=- cap={b.cap} out={hex b.cstr} term=- tr={showTrace t}"
+                    else s!"nb rc=0 len=- cap=- out=~ term=- tr={showTrace t}"
+    | (t, .error e) => s!"nb {showErr e} tr={showTrace t}"
+  match fn with
+  | "nfd0" => pure (stage (unicodeNormalize I.nfd cGuess mem srclen false fuel))
+  | "nfd1" => pure (stage (unicodeNormalize I.nfd cGuess mem srclen true fuel))
+  | "nfc0" => pure (stage (unicodeNormalize I.nfc cGuess mem srclen false fuel))
+  | "nfc1" => pure (stage (unicodeNormalize I.nfc cGuess mem srclen true fuel))
+  | "fold" => pure (stage (foldCase I.fold cGuess mem srclen fuel))
+  | "norm" => pure (whole true (cifNormalizeBuf I cGuess mem srclen true fuel))
+  | "norm0" => pure (whole false (cifNormalizeBuf I cGuess mem srclen false fuel))
+  | "name" => if mem.contains 0 then pure (whole true (normalizeNameBuf I cGuess false (some mem) srclen CIF_INVALID_BLOCKCODE true fuel)) else none
+  | "item" => if mem.contains 0 then pure (whole true (normalizeNameBuf I cGuess true (some mem) srclen CIF_INVALID_ITEMNAME true fuel)) else none
+  | "tbl" => if mem.contains 0 then pure (whole true (normalizeTableIndexBuf I cGuess (some mem) srclen CIF_INVALID_INDEX true fuel)) else none
+  | _ => none
+
+open CifModel.Model.NormBuf in
+def runIcu (U : UnicodeOps) (fn capArg : String) (x : Str) : Option String := do
+  let cap ← capArg.toNat?
+  let f ← match fn with | "nfd" => some U.nfd | "nfc" => some U.nfc | "fold" => some U.fold | _ => none
+  let r := icuOf f x cap
+  let w := if r.status == .overflow || r.status == .failure then "*" else hex (r.written.take r.len)
+  let nul := if r.status == .zero then boolStr (r.written.getD r.len 1 == 0) else "-"
+  pure s!"ic len={r.len} st={showStatus r.status} w={w} nul={nul} guard={boolStr (decide (r.written.length ≤ cap))}"
 
 def handle : Handler := fun args =>
   let (req, rest) := args.span (· != "|")
@@ -99,6 +198,12 @@ def handle : Handler := fun args =>
         runMatch U kind a b
     | "map" :: "tbl" :: ops => runMap U true ops
     | "map" :: "pkt" :: ops => runMap U false ops
+    | ["buf", fn, mode, len, h] => do
+        let m ← unhex h
+        runBuf U fn mode len m
+    | ["icu", fn, cap, h] => do
+        let x ← unhex h
+        runIcu U fn cap x
     | _ => none
 
 end Driver.Fam.Norm
